@@ -34,6 +34,11 @@ def alphabet(n, names, phases=(math.pi / 2,)):
             A += [(nm, tuple(c for c in range(n) if c != t), t) for t in range(n)] if n >= 3 else []
         elif nm == "mcz":
             A += [("mctrl", "Z", tuple(c for c in range(n) if c != t), t) for t in range(n)] if n >= 2 else []
+        elif nm == "mctrlx":
+            # a multi-controlled X built through mctrl(gates.X(), ...) (class MCtrl, not MCX), 1..n-1 controls
+            for t in range(n):
+                cs = [c for c in range(n) if c != t]
+                A += [("mctrl", "X", tuple(cs[:k]), t) for k in range(1, len(cs) + 1)]
         elif nm == "fan":
             # compiled-circuit shape: a 3-qubit register feeding scratch qubits 3..n-1 (controls in the register, targets outside)
             reg = [0, 1, 2]
